@@ -49,7 +49,7 @@ prop("C01",
 
 prop("C03",
      rule="rapid draws (asset with audio: bundled, or generated layout with AAC-1024 / AC-3-1536 frames, audio grid following the video grid, "
-          "fixed independent grid or one single audio segment, audio loop equal / 1-3 frames shorter / 1-3 frames longer than the video loop, "
+          "fixed independent grid or one single audio segment, audio loop equal / 1-3, 5 or 9 frames shorter (a whole short segment may lie in the padded tail) / 1-3 frames longer than the video loop, "
           "9 video clocks incl. 1001-based; addressing Number/Time/Timeline-Number; start, startNumber; live index n in the regimes first / wrap / "
           "many wraps / year-2026 / year-2090). Oracle: independent frame model aS=ceilF(start_n), aE=ceilF(end_n), frame at T is VoD frame "
           "(T-ceilF(wL))/F or the last VoD frame when past the VoD audio; payload comparison with the VoD frames; n+1 abuts; Number==Time bytes; "
